@@ -13,7 +13,8 @@ RULE = ("sort expressions composed of Name/Base/Ext/Dir/Size/-Size/Lower/len() a
         "tuple), ± invert; file lists of 1–9 files in a seeded shuffled order with hostile names (quotes, "
         "backslashes, digits of differing lengths, non-ASCII), duplicate key values (ties) forced by small pools of "
         "sizes/extensions/base names; directory mode lists with nested paths for the depth sorter; CLI runs where "
-        "%Count() numbers the files; non-trivial = at least one tie or at least 3 files; distinct by the full case")
+        "%Count() numbers the files; stream multiroot_order: runs over 1–3 input directories plus explicit files, the order in "
+        "which names are generated must follow the sort key over all of them; non-trivial = at least one tie or at least 3 files; distinct by the full case")
 ASSUMPTIONS = [
     "Python's sorted() is a stable sort (the model is List.mergeSort; both are stable sorts of the same total preorder)",
     "keys are computed by the harness independently (os.stat, PurePosixPath, str.lower) and by the model (Path.lean)",
@@ -182,12 +183,37 @@ def oracle_cli(case, obs):
     return None
 
 
+
+
+# ------------------------------------------------------------------ the order holds over ALL input directories of a run
+def gen_multiroot(rng, n, tier):
+    from . import fsrun
+    for _ in range(n):
+        c = fsrun.gen_scenario(rng, dry=rng.random() < 0.5, fault=False, modes=("name", "path"), strategies=("ignore",), links=False)
+        c["sorted"] = True
+        yield c
+
+
+def impl_multiroot(case):
+    from . import fsrun
+    return fsrun.observe(case)
+
+
+def oracle_multiroot(case, obs):
+    from . import fsrun
+    return fsrun.selection_violation(case, obs, what=("order",))
+
+
 def streams(tier):
     return [
         Stream("sorter", gen_sorter, impl_sorter, lines_sorter, obs_sorter, oracle=oracle_sorter,
                nontrivial=nontrivial_sorter, classify=classify_sorter, quick=4000, thorough=40000, parallel=True),
         Stream("depth", gen_depth, impl_depth, lines_depth, obs_sorter, oracle=oracle_depth,
                nontrivial=lambda c, o: len(c["rels"]) >= 3, quick=3000, thorough=30000),
+        Stream("multiroot_order", gen_multiroot, impl_multiroot, oracle=oracle_multiroot, parallel=True, quick=800, thorough=10000,
+               nontrivial=lambda c, o: len(c["roots"]) + len(c["explicit"]) >= 2 and len(o["gens"]) >= 3,
+               classify=lambda c, o: ["roots:%d" % len(c["roots"]), "explicit:%d" % len(c["explicit"]), "invert" if c["invert"] else "asc",
+                                      "n:%d" % min(len(o["gens"]), 6)]),
         Stream("cli_count", gen_cli, impl_cli, oracle=oracle_cli, parallel=True,
                nontrivial=lambda c, o: len(o["numbering"]) >= 2, quick=500, thorough=5000),
     ]
